@@ -44,7 +44,10 @@ def guarded_run(eng, prop, plan, keep_log=False, limit=None):
         eng.abort_cleanup()
         out = {'viol': {'sig': 'hang:wallclock', 'msg': f'run exceeded {limit}s wall clock'},
                'digest': 'hang', 'nontrivial': False, 'stats': {}, 'cov': (), 'hang': True}
-    except Exception:
+    except (KeyboardInterrupt, SystemExit):
+        raise
+    except BaseException:
+        # includes simulator-internal control exceptions (SimAbort) that escaped an engine: a harness fault
         signal.setitimer(signal.ITIMER_REAL, 0)
         eng.abort_cleanup()
         out = {'viol': None, 'digest': 'error', 'nontrivial': False, 'stats': {}, 'cov': (),
